@@ -71,6 +71,13 @@ def cases(tier):
             pairs = pairs[::2] if base in ("flat6", "mat23") else pairs[::5]
         for i in range(0, len(pairs), 12):
             out.append({"name": "%s/epoch2/%d" % (base, i), "base": base, "epoch2": pairs[i:i + 12]})
+        # the base is itself the tensor backward() is called on (default seed, or a seed array supplied by the caller), as a leaf or as an
+        # intermediate whose data are not C-ordered
+        ch = [c for c in chains if len(c) <= 2]
+        if quick:
+            ch = ch[::3]
+        for i in range(0, len(ch), 10):
+            out.append({"name": "%s/terminal/%d" % (base, i), "base": base, "terminal": ch[i:i + 10]})
     return out
 
 
@@ -98,6 +105,8 @@ def run_case(spec, tier):
     nprog = 0
     if "epoch2" in spec:
         return _run_epoch2_case(spec, mg, engine, shape, res)
+    if "terminal" in spec:
+        return _run_terminal_case(spec, mg, engine, shape, res)
     for chain in spec["chains"]:
         for cons in consumer_sets(len(chain), quick):
           for kinds in ([("mul",) * len(cons)] + ([tuple("lin" if j == 0 else "mul" for j in range(len(cons))),
@@ -209,6 +218,127 @@ def _run(mg, engine, shape, chain, lines, second, res, fo=False):
                     if vg.shape != exp.shape or prob.differ_any(list(zip(terms_of(vg), terms_of(exp))), 10000).verdict != "unsat":
                         return "after a second pass on the base only, v%d.grad is neither None nor the view of the new gradient" % (i + 1)
     return None
+
+
+TERMINAL_MODES = ["leaf/default", "leaf/seed", "inter/default", "inter/seed"]
+
+
+def _run_terminal_case(spec, mg, engine, shape, res):
+    fo = spec["base"] in F_ORDERED
+    nprog = 0
+    lines = []
+    for chain in spec["terminal"]:
+        for mode in TERMINAL_MODES:
+            nprog += 1
+            lines = []
+            prev = "b"
+            for i, op in enumerate(chain):
+                lines.append("v%d = %s" % (i + 1, VIEW_OPS[op][0].format(s=prev)))
+                prev = "v%d" % (i + 1)
+            bad = _run_terminal(mg, engine, shape, chain, lines, mode, res, fo)
+            if bad:
+                rp = _replay_terminal(spec, shape, chain, lines, mode, nprog, fo)
+                if rp:
+                    res["status"] = common.VIOLATION
+                    res["violations"].append({"signature": "view-grad-terminal:%s" % bad[:40], "replay": rp,
+                                              "summary": "base %s%s (%s), `%s; b.backward(%s)`: %s" % (shape, " non-C-ordered" if fo else "", mode.split("/")[0],
+                                                                                                        "; ".join(lines), "g" if mode.endswith("seed") else "", bad)})
+                else:
+                    res["status"] = common.INCONCLUSIVE
+                    res["notes"].append("did not reproduce: terminal %s %s :: %s" % (mode, "; ".join(lines), bad))
+    res["programs"] = nprog
+    res["sample"] = {"base": list(shape), "program": lines, "then": "b.backward() / b.backward(g) with b the base of the views"}
+    return res
+
+
+def _run_terminal(mg, engine, shape, chain, lines, mode, res, fo):
+    def body():
+        b0 = symarr("b", shape[::-1]).T if fo else symarr("b", shape)
+        if mode.startswith("leaf"):
+            b = mg.Tensor(b0)
+        else:
+            b = mg.Tensor(b0) * np.array(symarr("k", ()), dtype=object)  # an intermediate tensor with the same memory layout as its input
+        env = {"mg": mg, "np": np, "b": b}
+        for ln in lines:
+            exec(ln, env)
+        g = None
+        if mode.endswith("seed"):
+            g = symarr("g", shape)  # the caller's seed: an ordinary C-ordered array of the base's shape
+            guid = [t.uid for t in terms_of(g)]
+            b.backward(g)
+            if [t.uid for t in terms_of(g)] != guid:
+                env["__seed_changed__"] = True
+        else:
+            b.backward()
+        env["__g__"] = g
+        return env
+
+    for p in engine.explore(body, max_paths=20, max_seconds=60):
+        res["paths"] += 1
+        if p.exc is not None:
+            return "raised %s: %s" % (type(p.exc).__name__, p.exc)
+        env = p.out
+        b = env["b"]
+        views = [env["v%d" % (i + 1)] for i in range(len(chain))]
+        if b.grad is None:
+            return "base has no gradient"
+        if env.get("__seed_changed__"):
+            return "backward(g) changed the caller's seed array"
+        g = b.grad
+        prob = query.Problem(list(p.pc) + list(p.dom))
+        exp = g
+        for i, (op, v) in enumerate(zip(chain, views)):
+            exp = VIEW_OPS[op][1](exp)
+            vg = v.grad
+            if vg is None:
+                return "v%d.grad is None although the base has a gradient" % (i + 1)
+            if vg.shape != exp.shape:
+                return "v%d.grad has shape %s, the view of the base's gradient has %s" % (i + 1, vg.shape, exp.shape)
+            r = prob.differ_any(list(zip(terms_of(vg), terms_of(exp))), 10000)
+            res[r.verdict] += 1
+            if r.verdict == "sat":
+                return "v%d.grad differs from the view chain applied to the base's gradient" % (i + 1)
+            if not np.shares_memory(vg, g):
+                return "v%d.grad does not share memory with the base's gradient" % (i + 1)
+    return None
+
+
+def _replay_terminal(spec, shape, chain, lines, mode, k, fo):
+    src = '''import sys
+import numpy as np
+import mygrad as mg
+OPS = {
+ "slice": lambda a: a[1:], "rev": lambda a: a[::-1], "step": lambda a: a[..., ::2], "int": lambda a: a[0], "newaxis": lambda a: a[..., None],
+ "T": lambda a: a.T, "ravel": lambda a: a.reshape(-1), "reshape32": lambda a: a.reshape(3, 2), "swap": lambda a: np.swapaxes(a, 0, -1),
+ "diag": lambda a: np.einsum("ii->i", a), "col": lambda a: a[:, 1], "squeeze": lambda a: np.squeeze(a[:1], axis=0),
+ "moveaxis": lambda a: np.moveaxis(a, 0, -1), "expand": lambda a: np.expand_dims(a, 0), "ellipsis": lambda a: a[...]}
+CHAIN = %r; LINES = %r; MODE = %r; SHAPE = %r; FO = %r
+rng = np.random.RandomState(3)
+b0 = (rng.rand(*SHAPE[::-1]) + 0.5).T if FO else rng.rand(*SHAPE) + 0.5
+b = mg.Tensor(b0) if MODE.startswith("leaf") else mg.Tensor(b0) * 1.5
+env = {"mg": mg, "np": np, "b": b}
+bad = []
+try:
+    for ln in LINES: exec(ln, env)
+    g = None
+    if MODE.endswith("seed"):
+        g = rng.rand(*SHAPE) + 0.5; g0 = g.copy(); b.backward(g)
+        if not np.array_equal(g, g0): bad.append("seed changed")
+    else:
+        b.backward()
+    exp = b.grad
+    for i, op in enumerate(CHAIN):
+        exp = OPS[op](exp); v = env["v%%d" %% (i + 1)]
+        if v.grad is None or v.grad.shape != exp.shape or not np.allclose(v.grad, exp) or not np.shares_memory(v.grad, b.grad):
+            bad.append("v%%d.grad is not the sharing view of b.grad" %% (i + 1))
+except Exception as e:
+    bad.append("raised %%s: %%s" %% (type(e).__name__, e))
+print(bad)
+print('REPRODUCED' if bad else 'NOT-REPRODUCED'); sys.exit(1 if bad else 0)
+''' % (list(chain), list(lines), mode, tuple(shape), bool(fo))
+    path = common.write_replay(PROP, gradcase._safe("%s_%d" % (spec["name"], k)), src)
+    ok, out = common.run_replay(path)
+    return path if ok else None
 
 
 E2_READERS = [["w"], ["w", "v"], ["v", "w"], ["w", "w2"]]
